@@ -207,9 +207,32 @@ def rx_of(ex, st, v):
     return v
 
 
+_QM_SPECIAL = b'\\.+*?()|[]{}^$'
+
+
+@intr('regexp.QuoteMeta')
+def rx_quotemeta(ex, st, g, args, pos):
+    def one(s):
+        if not s.is_conc():
+            raise Unsupported('regexp.QuoteMeta of a symbolic string')
+        out = bytearray()
+        for c in s.conc():
+            if c in _QM_SPECIAL:
+                out.append(0x5c)
+            out.append(c)
+        return s_const(bytes(out))
+    return lift_str(ex, st, [args[0]], one)
+
+
 @intr('regexp.MustCompile')
 def rx_mustcompile(ex, st, g, args, pos):
     p = args[0]
+    if isinstance(p, ChoiceV):
+        # a pattern built from one of several concrete strings (e.g. a map key under a symbolic iteration order)
+        res = []
+        for ga, pa in alts_of(p):
+            res.append((ga, rx_mustcompile(ex, st, b_and(g, ga), [pa] + list(args[1:]), pos)))
+        return merge_vals(ex.ctx, st.heap, res)
     if not p.is_conc():
         raise Unsupported('regexp.MustCompile of a symbolic pattern')
     pat = p.conc().decode('utf-8', 'surrogateescape')
@@ -478,6 +501,14 @@ def rx_replace_all(ex, st, g, rxv, s, tmpl_parts, pos, max_matches=None):
                 piece = s_concat(piece, v)
             elif kind == 'sym':
                 piece = s_concat(piece, expand_sym(ex, b_and(g, m), v, groups, pos))
+            elif kind == 'func':
+                # ReplaceAllFunc / ReplaceAllStringFunc: the closure is executed on the matched text (under the match guard)
+                gm = b_and(g, m)
+                if gm is not False:
+                    r, heap2, g2 = ex.call_with_bindings(v.fn, [groups[0]], v.bind, st.heap, gm, pos)
+                    st.heap = heap2
+                    if g2 is not False and r is not None:
+                        piece = s_concat(piece, choice_str(r))
             elif 0 <= v < n:
                 piece = s_concat(piece, groups[v])
         result = s_ite(m, s_concat(result, piece), result)
@@ -495,6 +526,14 @@ def rx_replace_all_string(ex, st, g, args, pos):
     else:
         parts = [('sym', tm)]
     return lift_str(ex, st, [args[1]], lambda sv: rx_replace_all(ex, st, g, args[0], sv, parts, pos))
+
+
+@intr('(*regexp.Regexp).ReplaceAllFunc', '(*regexp.Regexp).ReplaceAllStringFunc')
+def rx_replace_all_func(ex, st, g, args, pos):
+    f = args[2]
+    if not isinstance(f, FuncV) or f.fn is None:
+        raise Unsupported('ReplaceAllFunc with %r' % (f,))
+    return lift_str(ex, st, [args[1]], lambda sv: rx_replace_all(ex, st, g, args[0], sv, [('func', f)], pos))
 
 
 @intr('(*regexp.Regexp).ReplaceAllLiteralString')
@@ -1421,7 +1460,35 @@ def i_isabs(ex, st, g, args, pos):
     return lift_str(ex, st, [args[0]], lambda s: b_and(i_cmp('>', s.ln, 0, W, True), i_cmp('==', s.at(0), 47, 8, False)))
 
 
+# ------------------------------------------------------------------ maps
+@intr('maps.clone')
+def i_maps_clone(ex, st, g, args, pos):
+    """runtime-implemented shallow copy behind maps.Clone: a new map object with the same entries"""
+    res = []
+    for ga, a in alts_of(args[0]):
+        if not isinstance(a, IfaceV) or not isinstance(a.v, Ptr):
+            raise Unsupported('maps.clone of %r' % (a,))
+        if a.v.obj is None:
+            res.append((ga, a))
+            continue
+        key = ex.ctx.newobj('m')
+        st.heap[key] = MapV([list(e) for e in st.heap[a.v.obj].entries])
+        res.append((ga, IfaceV(a.t, Ptr(key))))
+    return merge_vals(ex.ctx, st.heap, res)
+
+
 # ------------------------------------------------------------------ sort
+def choice_str(v):
+    """a choice among strings folded into one symbolic string"""
+    if not isinstance(v, ChoiceV):
+        return v
+    al = list(alts_of(v))
+    out = al[-1][1]
+    for ga, a in reversed(al[:-1]):
+        out = s_ite(ga, a, out)
+    return out
+
+
 @intr('sort.Strings')
 def i_sort_strings(ex, st, g, args, pos):
     sl = args[0]
@@ -1436,6 +1503,38 @@ def i_sort_strings(ex, st, g, args, pos):
         es = list(slice_elems(st.heap, sl)[:n])
         es = [e if e is not None else EMPTY for e in es]
         valid = [i_cmp('<', i, sl.ln, W, True) for i in range(n)]
+    # elements that are choices among concrete strings (e.g. map keys collected under a symbolic iteration order): when
+    # the solver shows that they are pairwise different, the slice is a permutation of a known set and the sorted result
+    # is concrete
+    if n > 1 and all(v is True for v in valid) and any(isinstance(e, ChoiceV) for e in es):
+        cal = [[(ga, a) for ga, a in alts_of(e)] for e in es]
+        if all(isinstance(a, Str) and a.is_conc() for al in cal for _, a in al):
+            vals = sorted({a.conc() for al in cal for _, a in al})
+            if len(vals) == n:
+                clash = []
+                for i in range(n):
+                    for j in range(i + 1, n):
+                        for ga, a in cal[i]:
+                            for gb, b in cal[j]:
+                                if a.conc() == b.conc():
+                                    clash.append(b_and(ga, gb))
+                c = b_and(g, b_or(*clash)) if clash else False
+                distinct = c is False
+                if not distinct and c is not True:
+                    sv = z3.Solver()
+                    sv.set('timeout', 20000)
+                    for a in ex.ctx.assumptions:
+                        sv.add(a)
+                    sv.add(bl(c))
+                    distinct = sv.check() == z3.unsat
+                if distinct:
+                    arr = st.heap[sl.arr]
+                    e = list(arr.e)
+                    e[sl.off:sl.off + n] = [s_const(v) for v in vals]
+                    st.heap[sl.arr] = ArrayV(e)
+                    ex.ctx.note('sort.Strings of a permutation of distinct constant strings: result concrete (distinctness shown by the solver)')
+                    return None
+    es = [choice_str(e) for e in es]
     # odd-even transposition network; slots beyond the length sort to the end
     for rnd in range(n):
         for i in range(rnd % 2, n - 1, 2):
